@@ -212,6 +212,7 @@ LAYOUTS = {
     "pkg-nested": ({"s1/pkg/__init__.py": "I", "s1/pkg/sub/__init__.py": "i", "s1/pkg/sub/deep.py": "1", "s1/pkg/two.py": "2"}, "pkg"),
     "pkg-2nd-path": ({"s1/other.py": "2", "s2/pkg/__init__.py": "i", "s2/pkg/m.py": "1"}, "pkg"),
     "stub-beside": ({"s1/mod.py": "1", "s1/mod.pyi": "1"}, "mod"),
+    "stubs-package-stub-only-module": ({"s1/pkg/__init__.py": "i", "s1/pkg/m.py": "2", "s2/pkg-stubs/__init__.pyi": "i", "s2/pkg-stubs/only.pyi": "1"}, "pkg"),
     "stubs-package": ({"s1/pkg/__init__.py": "i", "s1/pkg/m.py": "1", "s2/pkg-stubs/__init__.pyi": "i", "s2/pkg-stubs/m.pyi": "1"}, "pkg"),
 }
 BUILTINS = ["math", "itertools", "errno", "_bisect", "atexit"]
